@@ -26,6 +26,12 @@ func main() {
 		memdbEdges(atoi(os.Args[2]))
 	case "memdb-record":
 		memdbRecord(atoi(os.Args[2]), atoi(os.Args[3]))
+	case "overlay-edges":
+		overlayEdges(atoi(os.Args[2]), "edge")
+	case "overlay-traces":
+		overlayEdges(atoi(os.Args[2]), "trace")
+	case "overlay-record":
+		overlayRecord(atoi(os.Args[2]), atoi(os.Args[3]))
 	default:
 		vio.Fatal("unknown command %s", os.Args[1])
 	}
